@@ -5,6 +5,7 @@ import bisect
 import copy
 
 import common as C
+import re_probes as RP
 import fault_probes as FP
 import engine_common as E
 import engine_extract
@@ -419,6 +420,7 @@ def run(ctx, model=True):
             res.violations.append(C.Violation("subscription-left-on-device:after-stop-dispatch-probe", f"implementation-only probe: {o['subs_left']} engine subscription(s) left on s1", sc))
     FP.run_probes(ctx, res, PROBE_JUDGES, ["close"], 40, 800)
     res.rule += " | C41 generator: monitor / unmonitor of s1 placed anywhere in 1-2 (keyed) runs, run end with and without unmonitor, follow-up run, signal updates with unique values at 30-100% of all arrivals (and at the moment the state becomes 'paused', implementation only), 0-3 pause / suspend(+release) / abort / stop / halt requests; 30% of the scenarios contain suspension requests; 15% generic engine scenarios. Updates cannot land while paused through the shared script (arrivals only): those are delivered from the state hook"
+    RP.add_to(res, ["monitor-options"])
     return res
 
 
@@ -427,6 +429,9 @@ def run_impl_only(ctx):
 
 
 def replay(ctx, data):
+    r = RP.replay(data)
+    if r is not None:
+        return r
     if FP.is_probe(data):
         return FP.replay_probe(ctx, data, PROBE_JUDGES)
     sc = data.get("case") or {}
